@@ -171,7 +171,7 @@ def conclude(prop, tier, seed, mod, results, lost, jobs, wall):
         'inconclusive_reasons': reasons,
         'verdict': 'violated' if vlines else ('inconclusive' if reasons else 'held on what was explored'),
     }
-    for k in ('exhaustive', 'capabilities', 'oracle_validation', 'states', 'transitions'):
+    for k in ('exhaustive', 'capabilities', 'oracle_validation', 'states', 'transitions', 'w0'):
         if k in flags:
             coverage[k] = flags[k]
     if hasattr(mod, 'coverage_extra'):
